@@ -181,3 +181,41 @@ def two_register_measurements(conn):
         q2.X()
     conn.flush()
     return m0, m1
+
+
+def templated_rotation(conn, n, d, args, axis):
+    """rotation whose numerator is a template when ``args`` is given: compile / instantiate / commit; else plain flush.
+    Followed by more operations and an ordinary flush (checks the connection state left behind)."""
+    q = Qubit(conn)
+    getattr(q, "rot_" + axis)(n=n, d=d)
+    m = q.measure()
+    if args is not None:
+        sub = conn.compile()
+        sub.instantiate(conn.app_id, args)
+        conn.commit_subroutine(sub)
+    else:
+        conn.flush()
+    first = int(m)
+    q2 = Qubit(conn)
+    q2.H()
+    m2 = q2.measure()
+    conn.flush()
+    return first, int(m), int(m2)
+
+
+def compile_then_queue_then_commit(conn, n, d, args):
+    """operations queued between compile() and commit_subroutine() must survive (they belong to the next flush)"""
+    q = Qubit(conn)
+    q.rot_Z(n=n, d=d)
+    if args is not None:
+        sub = conn.compile()
+        q3 = Qubit(conn)
+        m3 = q3.measure()
+        sub.instantiate(conn.app_id, args)
+        conn.commit_subroutine(sub)
+    else:
+        conn.flush()
+        q3 = Qubit(conn)
+        m3 = q3.measure()
+    conn.flush()
+    return int(m3)
